@@ -38,14 +38,32 @@ _PROP = re.compile(r'Temporal properties were violated')
 
 def run(module, cfg, workdir, workers=16, timeout=600, coverage=False, simulate=None,
         depth=None, seed=None, extra=(), env=None, heap='6g', cwd=None, depth_first=False,
-        outname='tlc.out'):
+        outname='tlc.out', only=None):
     """Run TLC on spec/<module>.tla with config file `cfg` (absolute path, or name under spec/).
+
+    `only`: name (or set of names) of the INVARIANT/PROPERTY lines to keep - used by witness
+    configurations, where several properties fail and which one a multi-worker TLC reports first is
+    a race; checking one at a time makes the reported name deterministic.
 
     Returns a dict: ok (no violation and finished), generated, distinct, depth, coverage
     {action: (distinct, generated)}, violated (name or None), out (path of the raw output),
     wall_s, cmd.
     """
     cfgp = cfg if os.path.isabs(cfg) else os.path.join(SPEC, cfg)
+    if only is not None:
+        keep = {only} if isinstance(only, str) else set(only)
+        lines = []
+        for ln in open(cfgp).read().splitlines():
+            w = ln.split()
+            if len(w) >= 2 and w[0] in ('INVARIANT', 'INVARIANTS', 'PROPERTY', 'PROPERTIES'):
+                w = [w[0]] + [x for x in w[1:] if x in keep]
+                if len(w) == 1:
+                    continue
+                ln = ' '.join(w)
+            lines.append(ln)
+        cfgp = os.path.join(workdir, 'only.%s.cfg' % outname)
+        with open(cfgp, 'w') as f:
+            f.write('\n'.join(lines) + '\n')
     meta = os.path.join(workdir, 'meta.%s' % outname)
     shutil.rmtree(meta, ignore_errors=True)
     cmd = java_cmd(heap, depth_first) + ['-workers', str(workers), '-metadir', meta, '-noGenerateSpecTE',
